@@ -196,6 +196,14 @@ func (t *SessionTeardown) TerminateSession(session *Session, cause TerminateCaus
 		zap.String("cause", cause.String()),
 	)
 
+	// A session that was already torn down needs no second PADT and no state change
+	session.mu.RLock()
+	done := session.tornDown
+	session.mu.RUnlock()
+	if done {
+		return nil
+	}
+
 	// Update session state
 	session.SetState(StateTerminating)
 
